@@ -176,6 +176,8 @@ class OsLogEvent:
 
     @classmethod
     def from_raw_log_event(cls, event, log_strings):
+        # The fields are popped from a copy, the caller's record is left as it is (a plist may refer to one record twice).
+        event = dict(event)
         parsed_event = {
             'composed_message': log_strings[event.pop('cm')],
             'type_': event.pop('t'),
